@@ -196,6 +196,8 @@ func (p *Path) callBuiltin(fv FuncV, args []Value, pos token.Pos, caller *ssa.Fu
 		return out
 	}
 	switch fv.Builtin {
+	case "verif:sorter-identity":
+		return []Value{IntV{T: c.Resize(p.intOf(args[0]).T, 32, true)}}
 	case "builtin:len":
 		switch x := args[0].(type) {
 		case SliceV:
